@@ -82,8 +82,10 @@ def _header_slots(func: ast.FunctionDef, who: str):
 
 
 def _marks_dirty(func: ast.FunctionDef, obj_name: str) -> int:
-    """0: only assigns; 1: sets <obj>._needs_serialization = True; 2: goes through set_raw_string/chunks."""
+    """0: only assigns; 1: sets <obj>._needs_serialization = True; 2: goes through set_raw_string/chunks;
+    3: drops the cached id (<obj>._sha = None) without marking the object dirty."""
     kind = 0
+    drops_sha = False
     for n in ast.walk(func):
         if isinstance(n, ast.Assign):
             for t in n.targets:
@@ -91,10 +93,16 @@ def _marks_dirty(func: ast.FunctionDef, obj_name: str) -> int:
                         isinstance(t.value, ast.Name) and t.value.id == obj_name and \
                         isinstance(n.value, ast.Constant) and n.value.value is True:
                     kind = max(kind, 1)
+                if isinstance(t, ast.Attribute) and t.attr == "_sha" and \
+                        isinstance(t.value, ast.Name) and t.value.id == obj_name and \
+                        isinstance(n.value, ast.Constant) and n.value.value is None:
+                    drops_sha = True
         if isinstance(n, ast.Call) and isinstance(n.func, ast.Attribute) and \
                 n.func.attr in ("set_raw_string", "set_raw_chunks") and \
                 isinstance(n.func.value, ast.Name) and n.func.value.id == obj_name:
             kind = 2
+    if kind == 0 and drops_sha:
+        kind = 3
     return kind
 
 
@@ -302,6 +310,22 @@ def translate(repo: Path) -> dict:
     if sorted(seps) != [b" ", b"> "]:
         raise T.TranslateError(f"parse_time_entry: separators {seps}")
     setters = _setters(tree)
+    # how Commit._serialize cuts the final newline of a mergetag text: unconditional `[:-1]` (old) or only when
+    # the text ends in one (`if text.endswith(b"\n")`)
+    cs = T.find_def(tree, "Commit._serialize")
+    mt_loop = [n for n in ast.walk(cs) if isinstance(n, ast.For) and "mergetag" in ast.dump(n.iter)]
+    if len(mt_loop) != 1:
+        raise T.TranslateError("Commit._serialize: `for mergetag in self.mergetag` not found")
+    slices = [n for n in ast.walk(mt_loop[0]) if isinstance(n, ast.Subscript) and isinstance(n.slice, ast.Slice)
+              and n.slice.lower is None and isinstance(n.slice.upper, ast.UnaryOp)
+              and isinstance(n.slice.upper.operand, ast.Constant) and n.slice.upper.operand.value == 1]
+    if len(slices) != 1:
+        raise T.TranslateError("Commit._serialize: the `[:-1]` cut of the mergetag text not found")
+    guarded = [n for n in ast.walk(mt_loop[0]) if isinstance(n, ast.If) and any(
+        isinstance(c, ast.Call) and isinstance(c.func, ast.Attribute) and c.func.attr == "endswith" and
+        c.args and isinstance(c.args[0], ast.Constant) and c.args[0].value == b"\n" for c in ast.walk(n.test))
+        and any(sl in list(ast.walk(n)) for sl in slices)]
+    mt_conditional = bool(guarded)
     max_time = T.const_value(tree, "MAX_TIME")
     pgp, ssh = T.const_value(tree, "BEGIN_PGP_SIGNATURE"), T.const_value(tree, "BEGIN_SSH_SIGNATURE")
 
@@ -346,8 +370,11 @@ def translate(repo: Path) -> dict:
     L.append(f"def pgpMarker : List UInt8 := {_b(pgp)}")
     L.append(f"def sshMarker : List UInt8 := {_b(ssh)}")
     L.append(f"def maxTime : Nat := {max_time}")
+    L.append("/-- `Commit._serialize` cuts the last byte of a mergetag text only when it is LF (`true`), or always (`false`) -/")
+    L.append(f"def mergetagStripConditional : Bool := {'true' if mt_conditional else 'false'}")
     L.append("/-- every public setter of the four classes: (class, name, kind); kind 0 = assigns the attribute only,\n"
-             "    1 = also sets `_needs_serialization = True`, 2 = goes through `set_raw_string` -/")
+             "    1 = also sets `_needs_serialization = True`, 2 = goes through `set_raw_string`,\n"
+             "    3 = also drops the cached id (`_sha = None`) -/")
     L.append("def setters : List (String × String × Nat) := [" +
              ", ".join(f"({_s(c)}, {_s(n)}, {k})" for c, n, k in setters) + "]")
     L += ["", "end Dulwich.OGen", ""]
@@ -1221,6 +1248,10 @@ def _norm_msg(f: dict, keys=("message",)) -> dict:
     for k in keys:
         if g.get(k) is None:
             g[k] = b""          # message None and b"" are identified (DESIGN C01 Limits)
+    if "mergetag" in g:
+        # the header format cannot tell a mergetag text `foo` from `foo\n`: git (strbuf_add_lines) and dulwich both
+        # complete the last line, so field values are compared up to that completion (no byte may be lost)
+        g["mergetag"] = [m if m.endswith(b"\n") else m + b"\n" for m in g["mergetag"]]
     return g
 
 
@@ -1435,7 +1466,7 @@ def _edit_ops_commit(rng, f):
         v = rng.choice([None, b"latin1"])
     elif attr == "mergetag":
         v = [] if rng.random() < 0.5 else [ref_tag(gen_tag_fields(rng, "git"))]
-        v = [m if m.endswith(b"\n") else m + b"\n" for m in v]
+        v = [m if (m.endswith(b"\n") or rng.random() < 0.5) else m + b"\n" for m in v]
     else:
         v = rng.choice([None, gen_pgp(rng)])
     return attr, v
@@ -1788,9 +1819,7 @@ def gen_sequence(rng, kind):
     gen = gen_commit_fields if kind == "commit" else gen_tag_fields
     edit = _edit_ops_commit if kind == "commit" else _edit_ops_tag
     def lf(g):
-        if kind == "commit":
-            g["mergetag"] = [m if m.endswith(b"\n") else m + b"\n" for m in g["mergetag"]]
-        return g
+        return g       # mergetag texts without a final LF are fine since b8dbd4a (no byte is cut any more)
     f = lf(gen(rng, "canon"))
     if kind == "tag" and f["tagger"] is None:
         f["tagger"], f["tag_time"], f["tag_timezone"], f["tag_neg"] = b"T <t@t>", 1, 0, False
